@@ -345,3 +345,257 @@ pub open spec fn constructed_from(it: FlopExhaustiveEvaluatorIterator, e: FlopEx
     &&& forall|i: int| 0 <= i < e.players@.len() ==> is_listing(#[trigger] it.player_entries@[i]@, e.players@[i].0@)
     &&& forall|i: int| 0 <= i < it.current_player_indexes@.len() ==> #[trigger] it.current_player_indexes@[i] == 0
 }
+
+// ---------- meaning of `legal`: all 5 + 2n cards of the deal are pairwise different ----------
+
+/// hole cards of the first n players, in player order
+pub open spec fn holes_at(g: Game, c: Cur, n: int) -> Seq<Card>
+    decreases n
+{
+    if n <= 0 { Seq::empty() } else {
+        holes_at(g, c, n - 1).push(g.entries[n - 1][c.idx[n - 1]].0.0).push(g.entries[n - 1][c.idx[n - 1]].0.1)
+    }
+}
+
+/// the 5 + 2n cards of the deal: flop, turn, river, then the hole cards in player order
+pub open spec fn deal_cards(g: Game, c: Cur) -> Seq<Card> {
+    board_at(g, c) + holes_at(g, c, g.entries.len() as int)
+}
+
+pub proof fn lemma_distinct_push2(s: Seq<Card>, a: Card, b: Card)
+    ensures distinct_cards(s.push(a).push(b)) <==> (distinct_cards(s) && !s.contains(a) && !s.contains(b) && a != b),
+{
+    let t = s.push(a).push(b);
+    if distinct_cards(t) {
+        assert forall|i: int, j: int| 0 <= i < j < s.len() implies s[i] != s[j] by { assert(t[i] == s[i] && t[j] == s[j]); }
+        if s.contains(a) { let i = choose|i: int| 0 <= i < s.len() && s[i] == a; assert(t[i] == a && t[s.len() as int] == a); }
+        if s.contains(b) { let i = choose|i: int| 0 <= i < s.len() && s[i] == b; assert(t[i] == b && t[s.len() as int + 1] == b); }
+        assert(t[s.len() as int] == a && t[s.len() as int + 1] == b);
+    }
+    if distinct_cards(s) && !s.contains(a) && !s.contains(b) && a != b {
+        assert forall|i: int, j: int| 0 <= i < j < t.len() implies t[i] != t[j] by {
+            if j < s.len() { assert(t[i] == s[i] && t[j] == s[j]); }
+            else if i < s.len() { assert(t[i] == s[i]); assert(s.contains(s[i])); }
+        }
+    }
+}
+
+pub proof fn lemma_used_is_holes(g: Game, c: Cur, n: int, x: Card)
+    requires 0 <= n,
+    ensures used_at(g, c, n).contains(x) <==> (x == g.deck[c.t] || x == g.deck[c.r] || holes_at(g, c, n).contains(x)),
+    decreases n
+{
+    if n > 0 {
+        lemma_used_is_holes(g, c, n - 1, x);
+        let h = holes_at(g, c, n - 1);
+        let e0 = g.entries[n - 1][c.idx[n - 1]].0.0;
+        let e1 = g.entries[n - 1][c.idx[n - 1]].0.1;
+        let h2 = h.push(e0).push(e1);
+        assert(h2.contains(x) <==> (h.contains(x) || x == e0 || x == e1)) by {
+            if h.contains(x) { let i = choose|i: int| 0 <= i < h.len() && h[i] == x; assert(h2[i] == x); }
+            assert(h2[h.len() as int] == e0 && h2[h.len() as int + 1] == e1);
+            if h2.contains(x) { let i = choose|i: int| 0 <= i < h2.len() && h2[i] == x; if i < h.len() { assert(h[i] == x); } }
+        }
+    } else {
+        assert(!holes_at(g, c, 0).contains(x));
+    }
+}
+
+/// mat_at(n) <==> turn, river and the first n players' hole cards are pairwise different
+pub proof fn lemma_mat_distinct(g: Game, c: Cur, n: int)
+    requires 0 <= n <= g.entries.len(), game_ok(g), cur_ok(g, c),
+    ensures mat_at(g, c, n) <==> distinct_cards(seq![g.deck[c.t], g.deck[c.r]] + holes_at(g, c, n)),
+    decreases n
+{
+    let tr = seq![g.deck[c.t], g.deck[c.r]];
+    if n == 0 {
+        assert(tr + holes_at(g, c, 0) =~= tr);
+        assert(g.deck[c.t] != g.deck[c.r]);
+    } else {
+        lemma_mat_distinct(g, c, n - 1);
+        let h = holes_at(g, c, n - 1);
+        let e0 = g.entries[n - 1][c.idx[n - 1]].0.0;
+        let e1 = g.entries[n - 1][c.idx[n - 1]].0.1;
+        assert(0 <= c.idx[n - 1] < lens_of(g.entries)[n - 1]);
+        assert(e0 != e1);
+        let s = tr + h;
+        assert(tr + holes_at(g, c, n) =~= s.push(e0).push(e1));
+        lemma_distinct_push2(s, e0, e1);
+        lemma_used_is_holes(g, c, n - 1, e0);
+        lemma_used_is_holes(g, c, n - 1, e1);
+        assert forall|x: Card| s.contains(x) <==> (x == g.deck[c.t] || x == g.deck[c.r] || h.contains(x)) by {
+            if h.contains(x) { let i = choose|i: int| 0 <= i < h.len() && h[i] == x; assert(s[i + 2] == x); }
+            assert(s[0] == g.deck[c.t] && s[1] == g.deck[c.r]);
+            if s.contains(x) { let i = choose|i: int| 0 <= i < s.len() && s[i] == x; if i >= 2 { assert(h[i - 2] == x); } }
+        }
+    }
+}
+
+/// C02: the code's materialisation test is exactly "all 5 + 2n cards are pairwise different"
+pub proof fn lemma_legal_distinct(g: Game, c: Cur)
+    requires game_ok(g), cur_ok(g, c),
+    ensures legal(g, c) <==> distinct_cards(deal_cards(g, c)),
+{
+    let n = g.entries.len() as int;
+    let b = board_at(g, c);
+    let h = holes_at(g, c, n);
+    let tr = seq![g.deck[c.t], g.deck[c.r]];
+    let all = deal_cards(g, c);
+    lemma_mat_distinct(g, c, n);
+    lemma_holes_combos(g, c, n);
+    // a hole card on the board: on the flop, or equal to turn / river
+    assert(collides(combos_at(g, c), b) <==> exists|k: int, j: int| 0 <= k < h.len() && 0 <= j < 5 && h[k] == b[j]) by {
+        if collides(combos_at(g, c), b) {
+            let i = choose|i: int| 0 <= i < combos_at(g, c).len() && (on_board(#[trigger] combos_at(g, c)[i].0, b) || on_board(combos_at(g, c)[i].1, b));
+            if on_board(combos_at(g, c)[i].0, b) {
+                let j = choose|j: int| 0 <= j < b.len() && b[j] == combos_at(g, c)[i].0;
+                assert(h[2 * i] == b[j]);
+            } else {
+                let j = choose|j: int| 0 <= j < b.len() && b[j] == combos_at(g, c)[i].1;
+                assert(h[2 * i + 1] == b[j]);
+            }
+        }
+        if exists|k: int, j: int| 0 <= k < h.len() && 0 <= j < 5 && h[k] == b[j] {
+            let (k, j) = choose|k: int, j: int| 0 <= k < h.len() && 0 <= j < 5 && h[k] == b[j];
+            let i = k / 2;
+            assert(0 <= i < n);
+            if k % 2 == 0 { assert(h[2 * i] == combos_at(g, c)[i].0); assert(on_board(combos_at(g, c)[i].0, b)); }
+            else { assert(h[2 * i + 1] == combos_at(g, c)[i].1); assert(on_board(combos_at(g, c)[i].1, b)); }
+        }
+    }
+    assert(distinct_cards(b)) by {
+        assert forall|x: int, y: int| 0 <= x < y < b.len() implies b[x] != b[y] by {
+            if y <= 2 { assert(b[x] == g.flop[x] && b[y] == g.flop[y]); }
+            else if x <= 2 { assert(b[x] == g.flop[x]); assert(g.deck[c.t] != g.flop[x] && g.deck[c.r] != g.flop[x]); }
+            else { assert(g.deck[c.t] != g.deck[c.r]); }
+        }
+    }
+    let th = tr + h;
+    if legal(g, c) {
+        assert forall|x: int, y: int| 0 <= x < y < all.len() implies all[x] != all[y] by {
+            if y < 5 { assert(all[x] == b[x] && all[y] == b[y]); }
+            else if x < 5 { assert(all[x] == b[x] && all[y] == h[y - 5]); }
+            else { assert(all[x] == th[x - 3] && all[y] == th[y - 3]); }
+        }
+    }
+    if distinct_cards(all) {
+        assert forall|x: int, y: int| 0 <= x < y < th.len() implies th[x] != th[y] by {
+            assert(th[x] == all[x + 3] && th[y] == all[y + 3]);
+        }
+        assert forall|k: int, j: int| 0 <= k < h.len() && 0 <= j < 5 implies h[k] != b[j] by {
+            assert(all[j] == b[j] && all[5 + k] == h[k]);
+        }
+    }
+}
+
+pub proof fn lemma_holes_combos(g: Game, c: Cur, n: int)
+    requires 0 <= n <= g.entries.len(),
+    ensures holes_at(g, c, n).len() == 2 * n,
+        forall|i: int| 0 <= i < n ==> holes_at(g, c, n)[2 * i] == g.entries[i][c.idx[i]].0.0 && holes_at(g, c, n)[2 * i + 1] == g.entries[i][c.idx[i]].0.1,
+    decreases n
+{
+    if n > 0 { lemma_holes_combos(g, c, n - 1); }
+}
+
+// ---------- rank of a cursor: succ is +1, so the orbit never revisits and has a known length ----------
+
+/// number of board positions (t', r') with t' < t
+pub open spec fn tri(t: int) -> int
+    decreases t
+{
+    if t <= 0 { 0 } else { tri(t - 1) + (48 - (t - 1)) }
+}
+
+/// index of board position (t, r) in lexicographic order: (0,1) -> 0, ..., (47,48) -> 1175, terminal (48,49) -> 1176
+pub open spec fn tr_index(t: int, r: int) -> int { tri(t) + (r - t - 1) }
+
+pub proof fn lemma_tr_index_succ(t: int, r: int)
+    requires pos_ok(t, r),
+    ensures tr_index(tr_succ(t, r).0, tr_succ(t, r).1) == tr_index(t, r) + 1,
+{
+    if r >= 48 { assert(tri(t + 1) == tri(t) + (48 - t)); }
+}
+
+pub proof fn lemma_tri_1176()
+    ensures tr_index(0, 1) == 0, tr_index(48, 49) == 1176,
+{
+    assert(tri(48) == 1176) by (compute);
+    assert(tri(0) == 0) by (compute);
+}
+
+pub open spec fn cur_rank(c: Cur, lens: Seq<int>) -> int {
+    tr_index(c.t, c.r) * radix_prod(lens, lens.len() as int) + radix_val(c.idx, lens, lens.len() as int)
+}
+
+/// all digits at their maximum <==> the odometer value is the largest one
+pub proof fn lemma_radix_max(idx: Seq<int>, lens: Seq<int>, n: int)
+    requires idx_ok(idx, lens), 0 <= n <= idx.len(), forall|i: int| 0 <= i < n ==> #[trigger] idx[i] + 1 >= lens[i],
+    ensures radix_val(idx, lens, n) == radix_prod(lens, n) - 1,
+    decreases n
+{
+    if n > 0 {
+        lemma_radix_max(idx, lens, n - 1);
+        let v = radix_val(idx, lens, n - 1);
+        let p = radix_prod(lens, n - 1);
+        let l = lens[n - 1];
+        assert(idx[n - 1] == l - 1);
+        assert((p - 1) * l + (l - 1) == p * l - 1) by (nonlinear_arith);
+    }
+}
+
+pub proof fn lemma_radix_zeros(lens: Seq<int>, n: int)
+    requires 0 <= n <= lens.len(),
+    ensures radix_val(zeros(lens.len() as int), lens, n) == 0,
+    decreases n
+{
+    if n > 0 {
+        lemma_radix_zeros(lens, n - 1);
+        assert(zeros(lens.len() as int)[n - 1] == 0);
+        assert(0 * lens[n - 1] == 0) by (nonlinear_arith);
+    }
+}
+
+/// C02 "exactly once": one step of the enumeration raises the rank by exactly one, so the orbit of succ is
+/// strictly increasing (no cursor is visited twice) and reaches the scope end after
+/// cur_rank(end) - cur_rank(start) steps -- as many as there are cursors in between
+pub proof fn lemma_succ_rank(c: Cur, lens: Seq<int>)
+    requires pos_ok(c.t, c.r), idx_ok(c.idx, lens),
+    ensures cur_rank(succ(c, lens), lens) == cur_rank(c, lens) + 1,
+{
+    let n = lens.len() as int;
+    let j = last_inc(c.idx, lens, n);
+    lemma_last_inc(c.idx, lens, n);
+    if j >= 0 {
+        lemma_bump_val(c.idx, lens, j, n);
+    } else {
+        lemma_radix_max(c.idx, lens, n);
+        lemma_radix_zeros(lens, n);
+        lemma_tr_index_succ(c.t, c.r);
+        let m = radix_prod(lens, n);
+        let ti = tr_index(c.t, c.r);
+        assert((ti + 1) * m + 0 == ti * m + (m - 1) + 1) by (nonlinear_arith);
+    }
+}
+
+pub proof fn lemma_adv_rank(a: Cur, lens: Seq<int>, k: nat, g: Game, tt: int, rt: int)
+    requires lens == lens_of(g.entries), cur_ok(g, a) || (a.t == tt && a.r == rt), skipped_or_visited(g, a, k, tt, rt),
+    ensures cur_rank(adv(a, lens, k), lens) == cur_rank(a, lens) + k,
+    decreases k
+{
+    if k > 0 {
+        let km = (k - 1) as nat;
+        assert(skipped_or_visited(g, a, km, tt, rt));
+        lemma_adv_rank(a, lens, km, g, tt, rt);
+        let c = adv(a, lens, km);
+        assert(cur_ok(g, c));
+        lemma_succ_rank(c, lens);
+    }
+}
+
+/// cursors a, succ(a), ..., succ^(k-1)(a) are valid cursors inside the scope (legal or not)
+pub open spec fn skipped_or_visited(g: Game, a: Cur, k: nat, tt: int, rt: int) -> bool {
+    forall|j: nat| j < k ==> {
+        let c = #[trigger] adv(a, lens_of(g.entries), j);
+        !(c.t == tt && c.r == rt) && cur_ok(g, c)
+    }
+}
